@@ -57,7 +57,32 @@ LNorm == /\ \A i \in 1..Len(doc) : doc[i].k \in {"H", "P", "L"}
 
 Case == [doc |-> doc, pages |-> pages, lnorm |-> LNorm,
          els |-> [i \in 1..Len(doc) |-> [path  |-> Enclosing(doc, i, 7),
-                                         mpath |-> Enclosing(doc, i, 4)]]]
+                                         mpath |-> Enclosing(doc, i, 4),
+                                         \* the chain when only headings of level <= m open a
+                                         \* section (ChunkerConfig.MinHeadingLevel = m), m = 1..6
+                                         mps   |-> [m \in 1..6 |-> Enclosing(doc, i, m + 1)]]]]
+
+\* ---- heading trees: every heading opens a new page and is followed by a one-word
+\* paragraph (so that the layout-based chunker, whose input lists headings before
+\* paragraphs per page, sees each paragraph under its heading).  A heading may go at
+\* most TreeStep levels deeper than the previous one, any number of levels up:
+\* sibling sections at every depth 1..6 with few elements.  TreeBare adds the
+\* variant without the paragraph.
+TreeStep == 1
+TreeBare == FALSE
+LastLevel == LET hs == {i \in 1..Len(doc) : doc[i].k = "H"} IN IF hs = {} THEN 0 ELSE doc[SetMax(hs)].a
+TreeBuild(lv, withP) ==
+    /\ phase = "build" /\ Len(doc) < MaxLen /\ lv <= LastLevel + TreeStep
+    /\ LET pg == IF doc = <<>> THEN pages[1] ELSE PageNum(pstep, Len(pages) + 1)
+           h  == [k |-> "H", a |-> lv, pg |-> pg, n |-> 1]
+           pp == [k |-> "P", a |-> 1, pg |-> pg, n |-> 1]
+       IN /\ doc' = IF withP THEN doc \o <<h, pp>> ELSE Append(doc, h)
+          /\ pages' = IF doc = <<>> THEN pages ELSE Append(pages, pg)
+    /\ UNCHANGED <<pstep, minor, phase, consumed, nchunks, ids, emitted, implvars>>
+TreeNext == \E lv \in 1..6 : \E withP \in (IF TreeBare THEN BOOLEAN ELSE {TRUE}) : TreeBuild(lv, withP)
+TreeSpec == Init /\ [][TreeNext]_vars
+TreeStep2 == 2
+TreeBareOn == TRUE
 
 \* every document (= every build state) is one case
 EmitCase == PrintT(ToJson(Case))
